@@ -183,8 +183,10 @@ func (f *freshnessCalculator) CalculateFreshness(
 	}
 
 	isStale := currentAge.Value >= usefulLife
-	// If max-stale present, allow extra staleness
-	if isStale && maxStale > 0 && currentAge.Value < SatAdd(usefulLife, maxStale) {
+	// If max-stale present, allow extra staleness, unless the response forbids
+	// serving it stale (must-revalidate, RFC 9111 §5.2.2.2)
+	if isStale && maxStale > 0 && !resCC.MustRevalidate() &&
+		currentAge.Value < SatAdd(usefulLife, maxStale) {
 		isStale = false
 	}
 
